@@ -112,7 +112,8 @@ def load_known() -> List[dict]:
 
 def finish(ctx: Ctx, explanation: str, level: str = "other") -> int:
     """print the verdict lines, write evidence, return the exit code"""
-    known = [k for k in load_known() if k.get("property") == ctx.prop and k.get("status", "known") == "known"]
+    known = [k for k in load_known() if (k.get("property") == ctx.prop or ctx.prop in k.get("also", []))
+             and k.get("status", "known") == "known"]
     unlisted, listed = [], []
     for f in ctx.findings:
         hit = None
